@@ -6,8 +6,15 @@ RQ = {'test': 'TestVerifRQ', 'comp': 'rq', 'quick': {'VERIF_N': 150, 'VERIF_OPS'
       'thorough': {'VERIF_N': 1500, 'VERIF_OPS': 300}, 'seeds': {'quick': 1, 'thorough': 8}}
 GENF = {'test': 'TestVerifGenFuncs', 'comp': 'gen', 'quick': {'VERIF_N': 1500},
         'thorough': {'VERIF_N': 200000, 'VERIF_SNA16_ALL': 1}, 'seeds': {'quick': 1, 'thorough': 2}}
+PEND = {'test': 'TestVerifPendQ', 'comp': 'pend', 'quick': {'VERIF_N': 150, 'VERIF_OPS': 150},
+        'thorough': {'VERIF_N': 1500, 'VERIF_OPS': 300}, 'seeds': {'quick': 1, 'thorough': 8}}
 
 PROPS = {
     'C05': {'jobs': [RQ], 'assumptions': []},
     'C16': {'jobs': [GENF, RQ], 'assumptions': []},
+    'C17': {'jobs': [PEND], 'assumptions': [
+        'scheduler half only (pending_queue.go, scheduler factories); the negotiation half (chunk kinds, wrong-kind ABORT) is tied elsewhere',
+        'WFQ theorems are over exact rationals; the Go code uses float64 (identical for power-of-two weights; X compares the Float instance bit for bit)',
+        'a chunk pointer is never queued twice (fresh chunk per fragment), so chunkFinish[ptr] is modelled as a tag stored with the queue entry',
+    ]},
 }
